@@ -408,7 +408,7 @@ func NewFork(nodable Nodable, index int, id ForkId) *Fork {
 // a bit more than those on the fork ID - they can't use a slash to
 // separate nested fork components, and they can't contain a '.' character
 // as that would break the journal filename parsing scheme.
-var encodeJournalName = strings.NewReplacer(".", "%2E", "/", "%2F")
+var encodeJournalName = strings.NewReplacer("%", "%25", ".", "%2E", "/", "%2F")
 
 func (self *Fork) updateId(id ForkId) {
 	self.forkId = id
